@@ -19,6 +19,7 @@ fn fwd(op: &Op, _ctx: &dyn Context, operands: &mut dyn CoordinateSet) -> usize {
     for i in 0..n {
         let mut coord = operands.get_coord(i);
 
+        let lon = coord[0];
         let lat = coord[1];
         let (s, c) = lat.sin_cos();
         let cc = c * c;
@@ -44,6 +45,14 @@ fn fwd(op: &Op, _ctx: &dyn Context, operands: &mut dyn CoordinateSet) -> usize {
         let znos4 = z * N * dlon * s / 4.;
         let ecc = 4. * eps * cc;
         coord[1] = y_0 + k_0 * (m + N * theta_2 + znos4 * (9. + ecc + oo * (20. * cc - 11.)));
+
+        // No image can be computed from infinite, or absurdly large, coordinates: Signal
+        // that (while a NaN coordinate just propagates, as everywhere else)
+        if (coord[0].is_nan() || coord[1].is_nan()) && !(lon.is_nan() || lat.is_nan()) {
+            operands.set_xy(i, f64::NAN, f64::NAN);
+            continue;
+        }
+
         operands.set_coord(i, &coord);
         successes += 1;
     }
@@ -68,6 +77,7 @@ fn inv(op: &Op, _ctx: &dyn Context, operands: &mut dyn CoordinateSet) -> usize {
     let n = operands.len();
     for i in 0..n {
         let mut coord = operands.get_coord(i);
+        let nan_in = coord[0].is_nan() || coord[1].is_nan();
         // Footpoint latitude, i.e. the latitude of a point on the central meridian
         // having the same northing as the point of interest
         let lat = ellps.meridian_distance_to_latitude((coord[1] - y_0) / k_0 + m_0);
@@ -89,6 +99,14 @@ fn inv(op: &Op, _ctx: &dyn Context, operands: &mut dyn CoordinateSet) -> usize {
         let approx = lon_0 + theta_4;
         let coef = eps / 60. * xx * x * c;
         coord[0] = approx - coef * (10. - 4. * xx / cc + xx * cc);
+
+        // No pre-image can be computed from infinite, or absurdly large, coordinates: Signal
+        // that (while a NaN coordinate just propagates, as everywhere else)
+        if (coord[0].is_nan() || coord[1].is_nan()) && !nan_in {
+            operands.set_xy(i, f64::NAN, f64::NAN);
+            continue;
+        }
+
         operands.set_coord(i, &coord);
 
         successes += 1;
